@@ -152,9 +152,24 @@ class C07(F.PropCheck):
         return ('CHCFG', [c2, rng.choice([0, 20, K['FNC_STAIRCASE'], K['FNC_POWERSWITCH']]), rng.choice([0, 0, 1]), rng.choice([0, 0, 3, 8]), rng.choice([0, 500])], b'')
 
     def gen_special(self, rng, cid):
-        """(1) a config message in the middle of a countdown, (2) an aged device (uptime around / beyond 2^32 ms)"""
+        """(1) a config message in the middle of a countdown, (2) an aged device (uptime around / beyond 2^32 ms), (3) power loss long after
+        a timed / cancelling command that left the relay level unchanged"""
         K = consts(); cd = K['CHFLAG_COUNTDOWN']
-        if rng.random() < 0.5:
+        kind = rng.random()
+        if kind < 0.3:
+            n = rng.choice([1, 2]); gp = rng.sample(GPIOS, n)
+            rel = [(gp[i], i, rng.choice([2, 4, 2 | 16, 6]), cd if rng.random() < 0.5 else 0) for i in range(n)]
+            t2 = [0] * 8; i = rng.randrange(n)
+            if rng.random() < 0.25: t2[i] = rng.choice([20000, 60000])
+            evs = [cfg_event(1, 1, 0, False, rel, t2, [])]
+            d = rng.choice([20000, 60000]); on = lambda: rng.choice([('SET', [i, 1, 0, 5], b''), ('SW', [gp[i], 1], b'')])
+            if rng.random() < 0.5:      # A: relay already on, then "on for d"
+                evs += [on(), ('ADV', [rng.choice([1300000, 2500000])], b''), ('SET', [i, 1, d, 6], b'') if not t2[i] or rng.random() < 0.5 else ('SW', [gp[i], 1], b'')]
+            else:                       # B: "on for d", then a plain "on" cancels
+                evs += [('SET', [i, 1, d, 6], b''), ('ADV', [rng.choice([1300000, 2500000])], b''), on()]
+            evs += [('ADV', [rng.choice([1400000, 3000000, 5000000])], b''), ('CRASH', [], b''), ('ADV', [d * 1000 + 2000000], b'')]
+            return F.Case(cid, evs, ['power-loss'])
+        if kind < 0.65:
             n = rng.choice([1, 2, 3]); gp = rng.sample(GPIOS, n)
             rel = [(gp[i], i, rng.choice([0, 0, 16, 2]), cd if rng.random() < 0.5 else 0) for i in range(n)]
             t2 = [0] * 8; i = rng.randrange(n)
@@ -268,6 +283,10 @@ class C07(F.PropCheck):
         saved = ([0] * 8, [0] * 8)     # flash image of Relay[], Time2Left[]
         cancelled = [False] * nrel     # the channel's timer was cancelled by a command and no newer one armed: nothing may remain of it, here or in flash
         prev = st_of(segs[0]); tprev = 0
+        by_cmd = [False] * nrel        # the pending timer was armed by a server command / local switch (the same handler drives the relay and schedules the state save)
+        cancel_cmd = [False] * nrel    # ... cancelled by one
+        lastop = prev['t']             # latest time at which a relay operation may have (re)started the delayed state save
+        SAVE_US = consts()['SAVE_DELAY_MS'] * 1000 + jmax + 300000
         flags_known = not cfg['lateflags']      # channel_flags filled (board fills them in gpio_init, or FLAGS event since the last boot)
         lastrem = list(prev['rem']); lastt2 = list(prev['t2l'])
         for k, seg in enumerate(segs[1:]):
@@ -294,7 +313,7 @@ class C07(F.PropCheck):
                 if o[0] != 'GPIO': continue
                 t, p, lv = o[1]
                 if p not in pinidx: continue
-                i = pinidx[p]; busy.append((t - 10, t - 10 + OP))
+                i = pinidx[p]; busy.append((t - 10, t - 10 + OP)); lastop = max(lastop, t)
                 if crashed or i == target: continue          # the command's own switching / restore at boot
                 if weird[i]: continue
                 pd = pending[i]
@@ -314,7 +333,21 @@ class C07(F.PropCheck):
                         v.append('LATE switch-back of gpio %d came %d us after a command with duration %d ms (more than d+100 ms, only %d us of busy-wait)' % (p, el, d, bz))
             if target is not None: busy.append((t0, t0 + OP))
             # after the event: what is pending now?
+            if any(prev['rem'][i] > 0 and s['rem'][i] == 0 for i in range(nrel)) or e[0] not in ('ADV', 'CRASH'): lastop = max(lastop, s['t'])
             if crashed:
+                settled = t0 >= lastop + SAVE_US          # the last delayed save has certainly been written before the power loss
+                lastop = s['t']
+                for i in range(nrel):
+                    g, ch, f, cf = rel[i]; pd0 = pending[i]; wasc = cancel_cmd[i]; wasb = by_cmd[i]
+                    cancel_cmd[i] = False; by_cmd[i] = False
+                    if settled and (f & RST) and ch < 8 and not weird[i]:
+                        lv0 = prev['pin'][i] ^ (1 if f & LO else 0)
+                        if pd0 is not None and wasb and t0 < pd0[1] + (pd0[2] - 1) * 1000 and s['rem'][i] == 0 and \
+                           not (time2[ch] > 0 and lv0 == 0) and not (lv0 == 0 and not (cf & consts()['CHFLAG_COUNTDOWN'])):
+                            v.append('RESTORE-LOST after the restart no timer is pending for gpio %d although a timer of %d ms was started %d us before the power loss (level %d), long after the delayed state save' %
+                                     (g, pd0[2], t0 - pd0[1], lv0))
+                        if wasc and pd0 is None and time2[ch] == 0 and s['rem'][i] > 0:
+                            v.append('CANCEL-RESTORED after the restart a timer of %d ms runs for gpio %d although its timer had been cancelled by a command more than the state-save delay before the power loss' % (s['rem'][i], g))
                 for i in range(nrel):
                     g, ch, f, cf = rel[i]; pending[i] = None; cancelled[i] = False
                     if not (f & RST) or ch >= 8 or weird[i]: continue
@@ -346,6 +379,7 @@ class C07(F.PropCheck):
                             v.append('CANCEL-KEPT the command cancelled the timer of gpio %d but %d ms of remaining time stay in the persisted state (Time2Left)' % (rel[target][0], s['t2l'][target]))
                         else: cancelled[target] = True
                     else: cancelled[target] = False
+                    cancel_cmd[target] = had and d_exp == 0 and not weird[target] and e[0] in ('SET', 'SW')
                     if d_exp == 0 and e[0] == 'SET' and not weird[target]:
                         # the device shows no timer; does the statement demand one?  "on for d" always arms (staircase: its configured
                         # time unless the same remaining time is being restored), "off for d" arms on a channel whose countdown
@@ -360,6 +394,7 @@ class C07(F.PropCheck):
                         on = s['pin'][target] != (1 if rel[target][2] & LO else 0)
                         if not on: d_exp = 0
                     pending[target] = (t0, t0, d_exp, s['pin'][target]) if d_exp > 0 and not weird[target] else None
+                    by_cmd[target] = pending[target] is not None and e[0] in ('SET', 'SW') and s['rem'][target] > 0
                     lastrem[target] = s['rem'][target]; lastt2[target] = s['t2l'][target]
                 for i in range(nrel):
                     if i == target: continue
